@@ -194,6 +194,38 @@ fn mul_like_k0<T: Default + Clone>(n: usize, m: usize, o1: i128, o2: i128) -> St
     shape_obs(a.multiplication_like_operation(b, |_: &[T], _: &[T]| T::default()))
 }
 
+/// huge zero-sized matrices through the mutable vector iterators: `al` selects the alignment of the element type,
+/// the matrix is nrows x ncols (one of them may be up to usize::MAX), `axis` 0 = iter_rows_mut, 1 = iter_cols_mut
+fn itermut_zst(al: i128, nrows: usize, ncols: usize, order: i128, axis: i128, script: &[i128]) -> String {
+    fn go<T: Clone>(elem: T, nrows: usize, ncols: usize, order: i128, axis: i128, script: &[i128]) -> String {
+        let n = nrows.checked_mul(ncols).expect("element count");
+        let mut m = Matrix::from_row(vec![elem; n]);
+        if m.reshape((nrows, ncols)).is_err() {
+            return "INVALID".to_string();
+        }
+        if order != 0 {
+            m.switch_order();
+        }
+        matreex::verif_hooks::start_ptr_recording();
+        let out = if axis == 0 {
+            crate::hist::run_nested_pub(m.iter_rows_mut(), script, |_x: &mut T| "_".to_string())
+        } else {
+            crate::hist::run_nested_pub(m.iter_cols_mut(), script, |_x: &mut T| "_".to_string())
+        };
+        let events = matreex::verif_hooks::take_ptr_events();
+        let null = events.iter().any(|(_, a)| *a == 0);
+        std::mem::forget(m);
+        format!("{out}{}", if null { "+null-pointer-formed" } else { "" })
+    }
+    match al {
+        1 => go((), nrows, ncols, order, axis, script),
+        2 => go([0u16; 0], nrows, ncols, order, axis, script),
+        4 => go([0u32; 0], nrows, ncols, order, axis, script),
+        8 => go([0u64; 0], nrows, ncols, order, axis, script),
+        _ => "INVALID".to_string(),
+    }
+}
+
 pub fn run_k(toks: &[&str]) -> String {
     let name = toks[0];
     let a: Vec<i128> = toks[1..].iter().map(|t| t.parse().expect("integer")).collect();
@@ -221,6 +253,7 @@ pub fn run_k(toks: &[&str]) -> String {
             _ => "INVALID".to_string(),
         },
         "mul_like" => with_type!(a[0], T => mul_like_k0::<T>(u(1), u(2), a[3], a[4])),
+        "itermut_zst" => itermut_zst(a[0], u(1), u(2), a[3], a[4], &a[5..]),
         "from_wrapping" => {
             let (mj, mn) = matreex::verif_hooks::from_wrapping_index(a[0] as isize, a[1] as isize, ord(a[2]), u(3), u(4));
             format!("[{mj},{mn}]")
